@@ -16,12 +16,12 @@ META = {
     "technique": "exhaustive small-scope enumeration of constraint polynomials x methods x options (and of reducible models x target forms), differential comparison of symbolic-then-substituted against numerically built models",
     "text": "For PCBO and PCSO: every comparison method x every constraint polynomial with <=3 variables and <=1 (quick) / <=2 (thorough) terms over {-2,-1,1,2}, offsets -2..2, log_trick both, bounds "
             "omitted/exact; every logical method on label operands up to arity 3; and to_qubo/to_quso/to_pubo(2)/to_puso(2) with a symbolic penalty on every model over 4 variables with one (quick) / "
-            "<=2 (thorough) terms of which one has degree>=3, as PUBO/PUSO/PCBO/PCSO. For c in {1, 2.5, 0.75}: subs(symbol->c) of the symbolic build equals the numeric build in type, coefficients "
+            "<=2 (thorough) terms of which one has degree>=3, as PUBO/PUSO/PCBO/PCSO. For c in {1, 2.5, 0.75, 2}: subs(symbol->c) of the symbolic build equals the numeric build in type, coefficients "
             "(1e-9) and recorded constraints, and subs leaves the symbolic original unchanged.",
     "note": "Bounded as listed. Only the weight is symbolic (as the statement says), never the objective or the constraint polynomial.",
 }
 
-CS = (1, 2.5, 0.75)
+CS = (1, 2.5, 0.75, 2)      # 2: the weight at which lam / 2 == 1 (scalar shortcuts)
 N = 3
 GATES = ["AND", "OR", "XOR", "NAND", "NOR", "XNOR"]
 
